@@ -525,6 +525,18 @@ func runC10(c c10Case) (*vh.Violation, vh.Outcome) {
 				return vh.V("C10/forwarded-on-stale-receipt", "op %d: message of tx %s forwarded on a receipt the node was last asked for at request #%d, before the message became deep enough / the request arrived (request #%d); nothing was asked at the moment of the hand-off", a.opIdx, m.TxHash.Hex(), lastRcpt.seq, fresh), out
 			}
 		}
+		if isReobsOp(a.opIdx) && (lastRcpt == nil || !lastRcpt.found) {
+			// two goroutines ask for receipts while a re-observation request is handled: the request's handler and the
+			// head loop (for the same transaction, if it is still pending). Each acts on the answers it got itself; the
+			// hand-off rests on the forwarder's own last answer, which need not be the last answer overall (the chain
+			// may have moved in between: the head loop is then told "not found" and drops its copy).
+			for k := opStart[a.opIdx]; k >= 0 && k < a.servedAt && k < len(servedLog); k++ {
+				if sv := servedLog[k]; sv.method == "eth_getTransactionReceipt" && sv.arg == m.TxHash.Hex() && !sv.err && sv.found {
+					x := sv
+					lastRcpt = &x
+				}
+			}
+		}
 		if lastRcpt == nil || !lastRcpt.found {
 			return vh.V("C10/forwarded-without-receipt", "op %d: message of tx %s forwarded although the node's last answer for its receipt was 'not found' (or none)", a.opIdx, m.TxHash.Hex()), out
 		}
